@@ -245,3 +245,48 @@ func (e *Engine) initHasher() {
 		return nil
 	}}
 }
+
+func init() {
+	// visited(k): inside the invariant of a range-over-map loop: key k has already been handed
+	// out by the loop's iterator
+	specBuiltins["visited"] = func(e *SpecEnv, n *ast.CallExpr) (SV, types.Type) {
+		c := e.c
+		if e.fr == nil || e.fr.curLoop == nil {
+			e.fail("visited() outside a loop")
+		}
+		var nx *ssa.Next
+		for _, in := range e.fr.curLoop.head.Instrs {
+			if x, ok := in.(*ssa.Next); ok && !x.IsString {
+				nx = x
+			}
+		}
+		if nx == nil {
+			e.fail("visited(): the loop is not a range over a map")
+		}
+		rng, _ := nx.Iter.(*ssa.Range)
+		if rng == nil {
+			e.fail("visited(): iterator not found")
+		}
+		m, ok := rng.X.Type().Underlying().(*types.Map)
+		if !ok {
+			e.fail("visited(): not a map range")
+		}
+		itv, ok := e.fr.regs[nx.Iter].(Sc)
+		if !ok {
+			e.fail("visited(): iterator has no value yet")
+		}
+		ks := c.scalarSort(m.Key())
+		if ks == "" {
+			ks = SInt
+		}
+		kv, kt := e.eval(n.Args[0])
+		var key Term
+		if k, isK := kv.(Kv); isK {
+			key = e.constTo(k, ks, m.Key())
+		} else {
+			key, _ = e.scalar(kv, kt)
+		}
+		vh := c.heapGet(e.st, "iter$visited$"+string(ks), SArr(SInt, SArr(ks, SBool)))
+		return Sc{Select(Select(vh, itv.T, SArr(ks, SBool)), key, SBool)}, tBool
+	}
+}
